@@ -248,8 +248,41 @@ def run(ctx, rep):
             cd2 = {norm_callee(x) for x in kd[kind][1]} & {"as_nested", "enum_type", "funion_type", "fstruct_type", "as_final"}
             adder(rep, d[0])("R09h", "%s / %s: %s members go through the same serialization rule on both sides" % (sn, dn, kind), cs == cd2 and bool(cs),
                              "serializer applies %s, deserializer applies %s (a union or structure written in its FINAL form cannot be read back by AsNested when it is appendable or mutable)" % (sorted(cs), sorted(cd2)))
+    # R09i: "primitive element" means the same kinds on both sides (primitive collections have no DHEADER in XCDR2)
+    prim = {}
+    for b in fx.bodies.values():
+        if b.item_name == "is_element_type_kind_primitive" and b.is_fn_like() and "::tests::" not in b.sname:
+            fc = FnCtx(b)
+            for sb, ce in fc.ces.items():
+                if ce.is_discr() and len(ce.arms) > 5:
+                    prim[b.sname] = (b, frozenset(v for v, t in ce.arms))
+    rep.floor("R09i", len(prim), 2, "is_element_type_kind_primitive functions")
+    if len(prim) >= 2:
+        names = kind_names(fx)
+        vals = list(prim.values())
+        same = all(v[1] == vals[0][1] for v in vals)
+        diff = set()
+        for v in vals:
+            diff |= (v[1] ^ vals[0][1])
+        adder(rep, vals[-1][0])("R09i", "serializer and deserializer treat the same element kinds as primitive", same,
+                                "kinds primitive on one side only: %s — a collection of them is written without and read with a DHEADER (or vice versa) in XCDR2" % sorted(names.get(x, x) for x in diff))
+    # R09j: wide strings: the length written counts UTF-16 code units (what the body is made of), plus the terminator
+    ws = [b for b in fx.bodies.values() if b.item_name == "serialize_wstring_type" and b.is_fn_like() and SER in b.sname]
+    rep.floor("R09j", len(ws), 1, "serialize_wstring_type")
+    for b in ws:
+        fc = FnCtx(b)
+        ok = False
+        detail = ""
+        for bb, i, s in fc.mir.stmts():
+            if s.kind == "assign" and s.rv is not None and s.rv.kind == "binop" and s.rv.op.startswith("Add"):
+                e = fc.rv_expr(s)
+                if E.strip_casts(e[3]) == ("const", 1) and (E.mentions_call(e[2], "len") or E.mentions_call(e[2], "count")):
+                    detail = fc.show(e[2])[:120]
+                    ok = E.mentions_call(e[2], "encode_utf16") and not E.mentions_call(e[2], "chars")
+        adder(rep, b)("R09j", "wstring length prefix = number of UTF-16 code units + 1", ok,
+                      "length is computed from %s: the body is written as encode_utf16() units, so a character outside the BMP makes the announced length too short" % (detail or "?"))
     # R09e
-    wh = [b for b in fx.bodies.values() if b.item_name == "write_header" and "EMheader1" in (b.impl_self or "") and b.is_fn_like()]
+    wh =[b for b in fx.bodies.values() if b.item_name == "write_header" and "EMheader1" in (b.impl_self or "") and b.is_fn_like()]
     sp = impl_fns(fx, DES, 2, "seek_to_pid")
     if len(wh) == 1 and len(sp) == 1:
         st = switch_table(FnCtx(wh[0]), lambda ce: not ce.is_discr() and len(ce.arms) == 4)
